@@ -160,8 +160,14 @@ func runC16(t *verifsim.Tape, cfg engine.Config) *engine.Outcome {
 	// wildcard names come from a pool (unique within a pattern): the same path shape mounted under
 	// another method usually names its wildcards differently (GET /files/{*path}, PUT /files/{*filename})
 	varNames := []string{"v1", "id", "name", "rest", "path", "file", "key", "p"}
+	type twin struct {
+		src c16pattern
+		at  int // the two wildcards src.Segs[at], src.Segs[at+1] became the merged pattern's Segs[at]
+	}
+	twinOf := map[int]twin{} // index of a merged pattern -> the pattern it was merged from
 	for attempts := 0; len(pats) < nPat && attempts < 40; attempts++ {
 		var p c16pattern
+		var pendingTwin *twin
 		p.Method = c16methods[t.Pick("method", 4, 2, 1, 1)]
 		used := map[string]bool{}
 		fresh := func() string {
@@ -172,7 +178,31 @@ func runC16(t *verifsim.Tape, cfg engine.Config) *engine.Outcome {
 			used[v] = true
 			return v
 		}
-		if len(pats) > 0 && t.Draw("sibling", 3) == 0 {
+		if len(pats) > 0 && t.Draw("merged-twin", 5) == 0 {
+			// an earlier pattern with two adjacent single-segment wildcards merged into one: /files/{dir}/{name}
+			// and /files/{name} - a value containing an (escaped) slash makes the two URLs equal once decoded
+			src := pats[t.Draw("twin-of", len(pats))]
+			merged, at := false, -1
+			p.Method = src.Method
+			for i := 0; i < len(src.Segs); i++ {
+				sg := src.Segs[i]
+				if !merged && sg.Var != "" && !sg.Star && i+1 < len(src.Segs) && src.Segs[i+1].Var != "" && !src.Segs[i+1].Star {
+					p.Segs = append(p.Segs, seg{Var: fresh()})
+					at = i
+					i++
+					merged = true
+					continue
+				}
+				if sg.Var != "" {
+					sg.Var = fresh()
+				}
+				p.Segs = append(p.Segs, sg)
+			}
+			if merged {
+				o.Features["merged_twin_patterns"]++
+				pendingTwin = &twin{src, at}
+			}
+		} else if len(pats) > 0 && t.Draw("sibling", 3) == 0 {
 			// the shape of an earlier pattern under another method, wildcards renamed
 			src := pats[t.Draw("sibling-of", len(pats))]
 			for _, sg := range src.Segs {
@@ -217,6 +247,9 @@ func runC16(t *verifsim.Tape, cfg engine.Config) *engine.Outcome {
 			continue
 		}
 		seen[shape] = true
+		if pendingTwin != nil {
+			twinOf[len(pats)] = *pendingTwin
+		}
 		pats = append(pats, p)
 	}
 	// --- registration history -------------------------------------------------
@@ -306,13 +339,23 @@ func runC16(t *verifsim.Tape, cfg engine.Config) *engine.Outcome {
 		nReq = 40
 	}
 	var samples []map[string]any
+	var forced *struct {
+		idx  int
+		vals map[string]string
+	}
 	for ri := 0; ri < nReq; ri++ {
 		hit := &c16hit{handler: -1}
 		var method, path string
 		var want map[string]string
 		wantIdx := -1
 		unmatched := t.Draw("unmatched", 5) == 0
-		if !unmatched {
+		if forced != nil {
+			// the second request of a twin pair (see below)
+			unmatched = false
+			wantIdx, want = forced.idx, forced.vals
+			method, path = pats[wantIdx].Method, pats[wantIdx].build(want)
+			forced = nil
+		} else if !unmatched {
 			wantIdx = t.Draw("which", len(pats))
 			p := pats[wantIdx]
 			want = map[string]string{}
@@ -320,6 +363,34 @@ func runC16(t *verifsim.Tape, cfg engine.Config) *engine.Outcome {
 				if s.Var != "" {
 					want[s.Var] = pathValue(t, s.Star)
 				}
+			}
+			if tw, ok := twinOf[wantIdx]; ok && t.Draw("twin-pair", 2) == 0 {
+				// a pair of requests whose URLs are equal once decoded: this one puts "u/v" into the merged wildcard,
+				// the next one puts u and v into the two wildcards of the pattern it was merged from
+				src := tw.src
+				sv := map[string]string{}
+				for i, sg := range src.Segs {
+					switch {
+					case i == tw.at:
+						u, v := strings.ReplaceAll(pathValue(t, false), "/", "-"), strings.ReplaceAll(pathValue(t, false), "/", "_")
+						sv[sg.Var], sv[src.Segs[i+1].Var] = u, v
+						want[p.Segs[tw.at].Var] = u + "/" + v
+					case i == tw.at+1:
+					case sg.Var != "" && i < tw.at:
+						sv[sg.Var] = want[p.Segs[i].Var]
+					case sg.Var != "":
+						sv[sg.Var] = want[p.Segs[i-1].Var]
+					}
+				}
+				for si, sp := range pats {
+					if sp.Text == src.Text && sp.Method == src.Method {
+						forced = &struct {
+							idx  int
+							vals map[string]string
+						}{si, sv}
+					}
+				}
+				o.Features["twin_pairs"]++
 			}
 			method, path = p.Method, p.build(want)
 		} else {
@@ -496,6 +567,17 @@ func runC16(t *verifsim.Tape, cfg engine.Config) *engine.Outcome {
 				o.Violate("wrong_handler", "wrong_handler:smart-redirect", "%s %s matches no pattern but reached handler %d", method, path, hit.handler)
 			} else if resp.StatusCode != 301 {
 				o.Violate("smart_redirect", "smart_redirect:status", "%s %s matches a pattern once the trailing slash is toggled: status %d, want 301 (history %v)", method, path, resp.StatusCode, history)
+			} else {
+				// the redirect leads to the same URL with the slash toggled: same escaped path, so that following it
+				// yields the values the client put there
+				tp := path + "/"
+				if strings.HasSuffix(path, "/") {
+					tp = path[:len(path)-1]
+				}
+				o.Features["smart_redirect_location_checked"]++
+				if loc := ex.RespHeader.Get("Location"); loc != "//sim"+tp {
+					o.Violate("smart_redirect", "smart_redirect:location", "%s %s redirected to %q, want %q", method, path, loc, "//sim"+tp)
+				}
 			}
 		case smart && resp.StatusCode == 301 && hit.handler == -1 && !pathMatchesOtherMethod:
 			o.Violate("smart_redirect", "smart_redirect:unexpected", "%s %s was redirected to %q although toggling its trailing slash matches no pattern (history %v)", method, path, ex.RespHeader.Get("Location"), history)
